@@ -34,6 +34,15 @@ SameAns(exp, obs, skipT) ==
                 /\ DOMAIN exp[i][j].v = DOMAIN obs[i][j].v
                 /\ \A n \in DOMAIN exp[i][j].v : exp[i][j].v[n] = obs[i][j].v[n]
 
+\* the columns in which a structurally matching answer differs ("?" when the structure itself differs)
+BadNames(exp, obs, skipT) ==
+    IF /\ Len(exp) = Len(obs)
+       /\ \A i \in DOMAIN exp : /\ Len(exp[i]) = Len(obs[i])
+                                 /\ \A j \in DOMAIN exp[i] : /\ (skipT \/ exp[i][j].t = obs[i][j].t)
+                                                              /\ DOMAIN exp[i][j].v = DOMAIN obs[i][j].v
+    THEN UNION {UNION {{n \in DOMAIN exp[i][j].v : exp[i][j].v[n] # obs[i][j].v[n]} : j \in DOMAIN exp[i]} : i \in DOMAIN exp}
+    ELSE {"?"}
+
 Accept(tr, tabs, ev) ==
     \/ ev.op.view = "update"
     \/ /\ ev.exc = ""
@@ -44,6 +53,10 @@ Verdict(tr) ==
         tabs == SpecTables(r0)
     IN [id    |-> tr.id,
         bad   |-> {k \in DOMAIN tr.events : ~Accept(tr, tabs, tr.events[k])},
+        cols  |-> [k \in DOMAIN tr.events |->
+                     LET ev == tr.events[k]
+                     IN IF ev.op.view = "update" \/ ev.exc # "" \/ Accept(tr, tabs, ev) THEN {}
+                        ELSE BadNames(ViewT(OpOf(ev), ResOf(tr, ev), tabs), ev.ans, ev.op.view = "newy0")],
         reads |-> Cardinality({k \in DOMAIN tr.events : tr.events[k].op.view # "update"}),
         \* the recorded result is a well-formed member of the family, and the theorems hold of it too
         wf    |-> \A v \in {"x", "y"} : SignStable(r0, tabs, v),
